@@ -445,3 +445,58 @@ pub fn run(opts: &Opts) -> i32 {
   println!("STATS {}", stats_json);
   if findings.is_empty() && ak_div == 0 { 0 } else { 1 }
 }
+
+// ---- replay of a finding / witness on the current tree ----
+// File: JSON with "layout" (protocol text) and "history" (list of event tokens, "RA" = release_all).
+// Prints each step (implementation output, model agreement, monitor verdict); exit 1 if any monitor
+// is violated or the model disagrees.
+pub fn replay(opts: &Opts) -> i32 {
+  let path = match opts.get("file") { Some(p) => p, None => { eprintln!("--file required"); return 2; } };
+  let text = std::fs::read_to_string(path).expect("cannot read replay file");
+  let v: serde_json::Value = serde_json::from_str(&text).expect("replay file is not JSON");
+  let layout = fmt::parse_layout(v["layout"].as_str().expect("layout")).expect("layout text");
+  let history: Vec<String> = v["history"].as_array().expect("history").iter().map(|x| x.as_str().unwrap().to_string()).collect();
+  let mut lean = Lean::start();
+  let wf = lean.ask(&format!("L {}", fmt::layout(&layout)));
+  let made = catch_unwind(AssertUnwindSafe(|| Mapper::for_layout(&layout)));
+  let mut mapper = match made {
+    Ok(m) => m,
+    Err(_) => { println!("for_layout: implementation panics; model says {}", wf); lean.finish(); return 1; }
+  };
+  let mut p: Vec<KeyCode> = vec![];
+  let mut vset: Vec<KeyCode> = vec![];
+  let mut bad = 0;
+  for (i, tok) in history.iter().enumerate() {
+    let before = mapper.verif_snapshot();
+    let before_s = fmt::state(&layout, &before);
+    if tok == "RA" {
+      let evs = mapper.release_all();
+      let after_s = fmt::state(&layout, &mapper.verif_snapshot());
+      let out = format!("{} {}", fmt::events(&evs), after_s);
+      let model = lean.ask(&format!("RA {}", before_s));
+      let mon = lean.ask(&format!("MRA {} {} {} {}", fmt::keys(&p), fmt::keys(&vset), before_s, out));
+      println!("step {} release_all: impl emits [{}]; model {}; monitors {}", i, fmt::events_human(&evs), if model == out { "agrees" } else { "DISAGREES" }, mon);
+      if model != out || mon != "ok" { bad += 1; }
+      vset = fold_events(&vset, &evs);
+      continue;
+    }
+    let ev = fmt::parse_event(tok).expect("event token");
+    let res = match catch_unwind(AssertUnwindSafe(|| mapper.step(ev.clone()))) {
+      Ok(r) => r,
+      Err(_) => { println!("step {} {}: implementation PANICS", i, tok); bad += 1; break; }
+    };
+    let after_s = fmt::state(&layout, &mapper.verif_snapshot());
+    let out = format!("{} {} {}", fmt::events(&res.events), fmt::rrepeat(&res.repeat), after_s);
+    let model = lean.ask(&format!("S {} {}", before_s, tok));
+    let mon = lean.ask(&format!("M {} {} {} {} {}", fmt::keys(&p), fmt::keys(&vset), before_s, tok, out));
+    println!("step {} {}: impl emits [{}] repeat {}; model {}; monitors {}", i, fmt::events_human(&[ev.clone()]), fmt::events_human(&res.events), fmt::rrepeat(&res.repeat), if model == out { "agrees".to_string() } else { format!("DISAGREES ({})", model) }, mon);
+    if model != out || mon != "ok" { bad += 1; }
+    match &ev {
+      Event::Pressed(k) => { if !p.contains(k) { p.push(*k); p.sort(); } },
+      Event::Released(k) => { p.retain(|x| x != k); }
+    }
+    vset = fold_events(&vset, &res.events);
+  }
+  lean.finish();
+  if bad > 0 { println!("REPLAY: {} step(s) violate a monitor or disagree with the model", bad); 1 } else { println!("REPLAY: clean"); 0 }
+}
